@@ -70,19 +70,40 @@ def _strip_not(expr, pol: str):
     return expr, pol
 
 
+_AVOID: list = []
+
+
 def _side_reaches(cfg: CFG, t: Node, lab: str, target: int) -> bool:
     starts = [d for d, l in t.succ if l == lab]
-    return bool(starts) and target in cfg.reach(starts, avoid=[t.id])
+    return bool(starts) and target in cfg.reach(starts, avoid=[t.id] + [x for x in _AVOID if x != target])
 
 
-def implied_at(cfg: CFG, at: int, expr, pol: str) -> bool:
+def implied_within(cfg: CFG, at: int, expr, pol: str, avoid: list) -> bool:
+    """implied_at restricted to paths that do not pass the nodes in ``avoid`` (e.g. a loop head:
+    'within one iteration')."""
+    global _AVOID
+    saved = _AVOID
+    _AVOID = list(avoid)
+    try:
+        return implied_at(cfg, at, expr, pol, _dom_required=False)
+    finally:
+        _AVOID = saved
+
+
+def implied_at(cfg: CFG, at: int, expr, pol: str, _dom_required: bool = True) -> bool:
     """Is `expr` known to have truth value `pol` ('t'/'f') whenever control reaches node `at`?
     True when a test of the same expression dominates `at` and only its `pol` side reaches `at`."""
     expr, pol = _strip_not(expr, pol)
     want = ast.unparse(expr)
     for t in cfg.live_nodes():
-        if t.kind != "test" or not cfg.dominates(t.id, at):
+        if t.kind != "test":
             continue
+        if _dom_required and not cfg.dominates(t.id, at):
+            continue
+        if not _dom_required:
+            # within an iteration: the test must lie on every path from the avoided node(s) to `at`
+            if not _AVOID or not all(cfg.all_paths_pass(a_, [at], [t.id]) for a_ in _AVOID):
+                continue
         texpr, tp = _strip_not(t.ast, "t")
         # tp: the edge label on which `texpr` is true
         if ast.unparse(texpr) == want:
